@@ -6,6 +6,7 @@ package main
 // ext actions, and the execution of a program on the real executor.
 
 import (
+	"encoding/json"
 	"errors"
 	"fmt"
 	"reflect"
@@ -187,9 +188,16 @@ func (o *c12Op) action() pipeline.Action {
 			op.Query = c12MkVoR(*o.Query)
 		}
 		if o.Items != nil {
+			// an item that occurs twice in the list is ONE value referenced twice (the same Go object)
 			sl := pipeline.ValOrRefSlice{}
+			memo := map[c12VoR]*pipeline.ValOrRef{}
 			for _, it := range *o.Items {
-				sl = append(sl, c12MkVoR(it))
+				v, seen := memo[it]
+				if !seen {
+					v = c12MkVoR(it)
+					memo[it] = v
+				}
+				sl = append(sl, v)
 			}
 			op.Item = &sl
 		}
@@ -530,11 +538,21 @@ func c12IsSpec(a pipeline.Action) bool {
 	return false
 }
 
+// c12Snap: the canonical text of the data document (nodeWire yields maps, slices and strings only, and the
+// encoder sorts map keys: one pass is canonical already)
+func c12Snap(n dom.Node) string {
+	b, err := json.Marshal(nodeWire(n))
+	if err != nil {
+		return canon(nodeWire(n))
+	}
+	return string(b)
+}
+
 func (r *c12Rec) OnBefore(ctx pipeline.ActionContext) {
 	r.ext = ctx.Ext()
 	s := ""
 	if r.wantSnap && c12IsSpec(ctx.Action()) {
-		s = canon(nodeWire(ctx.Data()))
+		s = c12Snap(ctx.Data())
 	}
 	r.add([]any{"b", c12Label(ctx.Action())}, nil, s)
 }
@@ -542,7 +560,7 @@ func (r *c12Rec) OnBefore(ctx pipeline.ActionContext) {
 func (r *c12Rec) OnAfter(ctx pipeline.ActionContext, err error) {
 	s := ""
 	if r.wantSnap && c12IsSpec(ctx.Action()) {
-		s = canon(nodeWire(ctx.Data()))
+		s = c12Snap(ctx.Data())
 	}
 	r.add([]any{"a", c12Label(ctx.Action()), nil}, err, s)
 }
